@@ -34,6 +34,7 @@ type Model struct {
 	eachCaseRes    *loopCaseResult
 	forCaseRes     *loopCaseResult
 	newTokenUnread bool // newToken ends a token that has read nothing on the current character
+	errPassStrict  bool // R-EVALERR for C13: an error coming out of Eval is handed up as the same object, not re-created
 	tokposGeom     *tokposGeom
 	lexModeDone    bool
 	lexMode        *lexModePred
